@@ -600,8 +600,52 @@ struct JGen {
 };
 } // namespace
 
+// Right recursion that passes through a second rule:  <a> = P.. <b>;  <b> = Q.. <a> | T..;   language (P Q)* P T
+// (the automaton is written down from that expression, not from any expansion of the rules)
+static Json gen_jsgf_indirect(Rng &r, const std::vector<std::string> &vocab, const std::vector<std::string> &prefer)
+{
+    auto word = [&]() { return pick_word(r, vocab, prefer); };
+    std::vector<std::string> P, Q, T;
+    // with preferred words: P = first word, T = the rest, so that the audio's sentence is P T
+    if (prefer.size() >= 2 && r.chance(0.7)) {
+        P = { prefer[0] };
+        T.assign(prefer.begin() + 1, prefer.end());
+        Q = { r.chance(0.6) ? prefer[1] : word() };
+    } else {
+        for (int i = (int)r.range(1, 2); i > 0; --i) P.push_back(word());
+        for (int i = (int)r.range(1, 2); i > 0; --i) Q.push_back(word());
+        for (int i = (int)r.range(1, 3); i > 0; --i) T.push_back(word());
+    }
+    auto join = [](const std::vector<std::string> &v) {
+        std::string t;
+        for (auto &w : v)
+            t += (t.empty() ? "" : " ") + w;
+        return t;
+    };
+    std::string text = "#JSGF V1.0;\ngrammar ind" + std::to_string(r.next() & 0xfff) + ";\npublic <a> = " + join(P) + " <b>;\n<b> = " + join(Q) + " <a> | " + join(T) + ";\n";
+    Nfa a;
+    int A = a.add_state(), fin;
+    a.start = A;
+    auto chain = [&](int from, const std::vector<std::string> &ws, int to /* -1: new */) {
+        int cur = from;
+        for (size_t i = 0; i < ws.size(); ++i) {
+            int nx = (i + 1 == ws.size() && to >= 0) ? to : a.add_state();
+            a.add(cur, nx, ws[i]);
+            cur = nx;
+        }
+        return cur;
+    };
+    int B = chain(A, P, -1);
+    chain(B, Q, A);
+    fin = chain(B, T, -1);
+    a.finals = { fin };
+    return pack("jsgf", text, a, { "indirect_right_recursion", "right_recursion" });
+}
+
 static Json gen_jsgf_pref(Rng &r, const std::vector<std::string> &vocab, const std::vector<std::string> &prefer)
 {
+    if (r.chance(0.07))
+        return gen_jsgf_indirect(r, vocab, prefer);
     JGen g { r, vocab, prefer, {}, {}, 0 };
     int nrules = (int)r.weighted({ 0, 50, 25, 15, 10 });
     for (int i = 0; i < nrules; ++i) {
